@@ -22,7 +22,8 @@ RULE = ("every script = [B writes 5 bytes first]? + <= 3 writes by A from {write
         "acting from inside its first dataReceived {loseConnection, loseWriteConnection, 3-byte reply + loseConnection, 3-byte reply "
         "with A then closing / half-closing} optionally with a 3-byte write by B after A's writes (pending when A's bytes arrive, so "
         "one poll event carries IN|OUT) x protocols "
-        "{plain, IHalfCloseableProtocol on both sides} x A's transport {tcp.Server, tcp.Client with a recording connector} (B is a "
+        "{plain, IHalfCloseableProtocol on both sides (closing from readConnectionLost, or staying passive and closed by the "
+        "harness at quiescence)} x A's transport {tcp.Server, tcp.Client with a recording connector} (B is a "
         "tcp.Server) x reactor {select, poll, epoll, asyncio}; kernel pipe of 4 bytes per direction, SEND_LIMIT=4, bufferSize=3; "
         "kernel answers: at every send() all that fits (default) or any smaller count >= 1; at every readiness report with two "
         "ready descriptors either order (ascending fd default; select: read list and write list separately); at an abortive "
@@ -51,9 +52,11 @@ ASSUMPTIONS = [
     "when the model kernel generated a reset during an execution (abort, close with unread data, data sent to a closed peer) "
     "only prefix delivery, exactly-one connectionLost and no-data-after-loss are demanded (TCP gives no more); the reason given "
     "to connectionLost after abortConnection is not constrained by the statement",
-    "a half-closeable protocol calls loseConnection() from readConnectionLost, as IHalfCloseableProtocol requires",
+    "the active half-closeable protocol calls loseConnection() from readConnectionLost; the passive variant keeps its write side "
+    "open and is closed by the harness (loseConnection) once the system is quiescent, but only if its readConnectionLost followed "
+    "a recv() that returned EOF; readConnectionLost directly after a recv() that failed is a violation in every execution",
 ]
-MIN = {"quick": {"evaluations": 1000000, "nontrivial": 950000, "outcomes": 10, "states": 2000000},
+MIN = {"quick": {"evaluations": 1080000, "nontrivial": 1040000, "outcomes": 10, "states": 2200000},
        "thorough": {"evaluations": 14000000, "nontrivial": 14000000, "outcomes": 8, "states": 7500000}}
 LEVEL_TEXT = ("Every script in the stated alphabet on each of the four reactors' real dispatch code and the real tcp.Connection, "
               "with every single (thorough: pair of) departure(s) of the model kernel from its default answers; relative to the "
@@ -168,6 +171,7 @@ def _classes():
             self.wcl = 0
             self.closed_self = False     # this side asked for an orderly close / half-close itself
             self.react = None            # what to do from inside the first dataReceived
+            self.lose_called = False     # loseConnection() (full close) was called on this side's transport
 
         def dataReceived(self, data):
             self.env.nevents += 1
@@ -186,6 +190,7 @@ def _classes():
                     self.transport.loseWriteConnection()
                 elif r.endswith("lose"):
                     self.closed_self = True
+                    self.lose_called = True
                     self.transport.loseConnection()
 
         def connectionLost(self, reason):
@@ -196,13 +201,21 @@ def _classes():
     class HalfCloseable(Plain):
         hc = True
 
+        passive = False      # True: stays open after readConnectionLost (the harness closes it later, at quiescence)
+
         def readConnectionLost(self):
             self.env.nevents += 1
             self.rcl += 1
             if self.lost:
                 self.env.bad.append(("readConnectionLost-after-connectionLost", self.name, "on %s" % self.name))
-            if self.rcl == 1:
+            last = self.env._socks[self.name].last_recv
+            self.rcl_after_eof = last == "eof"
+            if last == "err":
+                self.env.bad.append(("readConnectionLost-after-read-error", self.name,
+                                     "%s was told readConnectionLost although its last recv() failed (reset), it never read an EOF" % self.name))
+            if self.rcl == 1 and not self.passive:
                 self.closed_self = True
+                self.lose_called = True
                 self.transport.loseConnection()
 
         def writeConnectionLost(self):
@@ -235,7 +248,7 @@ class Connector:
 
 
 class Env:
-    def __init__(self, ch, rname, hc, base, client=False):
+    def __init__(self, ch, rname, hc, base, client=False, passive=False):
         C = _classes()
         del _LOGGED[:]
         self.ch = ch
@@ -255,6 +268,8 @@ class Env:
         self._socks = {"A": sa, "B": sb}
         P = C["HalfCloseable"] if hc else C["Plain"]
         self.p = {"A": P(self, "A"), "B": P(self, "B")}
+        if passive:
+            self.p["A"].passive = self.p["B"].passive = True
         self.connector = None
         if client:
             self.connector = Connector(sa, self.p["A"])
@@ -293,6 +308,7 @@ class Env:
         t = self.t[side]
         if kind == "lose":
             self.p[side].closed_self = True
+            self.p[side].lose_called = True
             t.loseConnection()
         elif kind == "losew":
             self.p[side].closed_self = True
@@ -336,7 +352,7 @@ class Env:
 
 def run_case(ch, case, base=0):
     rname, hc, pacing, ops, closer, kind, echo = case
-    env = Env(ch, rname, hc & 1, base, client=bool(hc & 2))
+    env = Env(ch, rname, hc & 1, base, client=bool(hc & 2), passive=bool(hc & 4))
     env.case = case
     env.quiescent = True
     if hc & 2:
@@ -380,6 +396,19 @@ def run_case(ch, case, base=0):
         env.close(closer, kind)
     if not env.settle():
         env.quiescent = False
+    if hc & 4:
+        # a passive half-closeable protocol that was told about a genuine read-side EOF keeps its write side open; the
+        # application closes it some time later: here, whenever the system has gone quiet
+        for _ in range(3):
+            late = [s for s in "AB" if env.p[s].rcl and not env.p[s].lost and not env.p[s].lose_called
+                    and getattr(env.p[s], "rcl_after_eof", False)]
+            if not late or not env.quiescent:
+                break
+            for s in late:
+                env.k.flags.add("passive-side-closed-later")
+                env.close(s, "lose")
+            if not env.settle():
+                env.quiescent = False
     env.logged = list(_LOGGED)
     return env
 
@@ -489,7 +518,8 @@ def _scripts(maxw, only_len, pacings, hcs, echos, bound, closes=CLOSES):
     return out
 
 
-# protocol/transport kinds: bit 0 = both protocols are IHalfCloseableProtocol, bit 1 = side A is a tcp.Client
+# protocol/transport kinds: bit 0 = both protocols are IHalfCloseableProtocol, bit 1 = side A is a tcp.Client,
+# bit 2 (with bit 0) = the half-closeable protocols stay passive in readConnectionLost
 def scripts(tier):
     """[(bound, kinds, pacing, ops, closer, kind, echo)] without the reactor."""
     if tier == "quick":
@@ -501,13 +531,17 @@ def scripts(tier):
                 + _scripts(2, None, PACING, (0, 1, 2, 3), (0, 1), 1, CLOSES2)
                 + _scripts(2, None, ("burst", "step"), (0, 3), (0,), 2, CLOSES2[:2])
                 + _scripts(3, 3, ("burst", "drain"), (0, 3), (0,), 1, CLOSES2[:2])
-                + _scripts(2, None, PACING, (0, 1, 2, 3), (0, 2), 1, CLOSES3))
+                + _scripts(2, None, PACING, (0, 1, 2, 3), (0, 2), 1, CLOSES3)
+                + _scripts(2, None, PACING, (5,), (0, 1), 1, CLOSES)
+                + _scripts(2, None, PACING, (5,), (0,), 1, CLOSES2 + CLOSES3))
     return (_scripts(3, None, PACING, (0, 1, 2, 3), (0, 1), 2)
             + _scripts(2, None, PACING, (0, 3), (0,), 3)
             + _scripts(2, None, PACING, (0, 1, 2, 3), (0, 1), 2, CLOSES2)
             + _scripts(3, 3, PACING, (0, 1, 2, 3), (0, 1), 1, CLOSES2)
             + _scripts(2, None, PACING, (0, 1, 2, 3), (0, 1, 2), 2, CLOSES3)
-            + _scripts(3, 3, PACING, (0, 1, 2, 3), (0, 2), 1, CLOSES3))
+            + _scripts(3, 3, PACING, (0, 1, 2, 3), (0, 2), 1, CLOSES3)
+            + _scripts(2, None, PACING, (5, 7), (0, 1), 2, CLOSES + CLOSES2)
+            + _scripts(2, None, PACING, (5, 7), (0, 2), 2, CLOSES3))
 
 
 NSLICES = {"quick": 12, "thorough": 40}
